@@ -164,7 +164,33 @@ def _matrix():
         if not exp:
             # a disabled decorator must return the very object also when it is given a descriptor object
             for deco in ("require", "ensure", "snapshot"):
-                for kind, mk in (("staticmethod_object", staticmethod), ("classmethod_object", classmethod), ("property_object", property)):
+                def _wraps_over_contracted(fn):
+                    # a third-party functools.wraps wrapper around a function that already carries an (explicitly enabled) contract
+                    import functools
+
+                    inner = icontract.require(lambda: True, enabled=True)(fn)
+
+                    @functools.wraps(inner)
+                    def outer(*a, **k):
+                        return inner(*a, **k)
+
+                    return outer
+
+                def _invariant_wrapped_method(fn):
+                    @icontract.invariant(lambda self: True, enabled=True)
+                    class _K:
+                        def m(self, *a):
+                            return 1
+
+                    return _K.__dict__["m"]
+
+                for kind, mk in (
+                    ("staticmethod_object", staticmethod),
+                    ("classmethod_object", classmethod),
+                    ("property_object", property),
+                    ("wraps_over_contracted_function", _wraps_over_contracted),
+                    ("invariant_wrapped_method", _invariant_wrapped_method),
+                ):
 
                     def plain(*a):
                         return 1
